@@ -14,6 +14,7 @@ type axBlock struct {
 	text     string
 	patSyms  [][]string // per pattern: the prelude function symbols it mentions
 	bodySyms []string
+	needs    []string // "; @needs f": the axiom only derives facts about f, useless unless the query itself mentions f
 }
 
 var (
@@ -31,9 +32,14 @@ func initAxBlocks() {
 	}
 	// split into top-level s-expressions
 	var cur strings.Builder
+	var needs []string
 	depth := 0
 	for _, l := range strings.Split(preludeAx, "\n") {
 		t := strings.TrimSpace(l)
+		if strings.HasPrefix(t, "; @needs ") {
+			needs = append(needs, strings.Fields(t[len("; @needs "):])...)
+			continue
+		}
 		if t == "" || strings.HasPrefix(t, ";") {
 			continue
 		}
@@ -41,7 +47,10 @@ func initAxBlocks() {
 		cur.WriteString("\n")
 		depth += strings.Count(l, "(") - strings.Count(l, ")")
 		if depth == 0 {
-			axBlocks = append(axBlocks, mkBlock(cur.String()))
+			b := mkBlock(cur.String())
+			b.needs = needs
+			needs = nil
+			axBlocks = append(axBlocks, b)
 			cur.Reset()
 		}
 	}
@@ -89,8 +98,10 @@ func mkBlock(text string) axBlock {
 func sliceAxioms(query string) string {
 	axOnce.Do(initAxBlocks)
 	have := map[string]bool{}
+	inQuery := map[string]bool{}
 	for _, s := range symsOf(query) {
 		have[s] = true
+		inQuery[s] = true
 	}
 	// structural symbols always considered present
 	for _, s := range []string{"blen", "bempty"} {
@@ -101,6 +112,15 @@ func sliceAxioms(query string) string {
 		changed = false
 		for i, b := range axBlocks {
 			if used[i] {
+				continue
+			}
+			skip := false
+			for _, n := range b.needs {
+				if !inQuery[n] {
+					skip = true
+				}
+			}
+			if skip {
 				continue
 			}
 			fire := len(b.patSyms) == 0
